@@ -1,0 +1,205 @@
+//go:build verif
+
+// Contracts for package corazawaf, second batch of the request/response data intake (C03, C20), checked by
+// /verif/govc (comment-only file; no code). Trusted library contracts: /verif/specs/reqdata2.spec.
+package corazawaf
+
+// ---------------------------------------------------------------- ProcessURI (C03)
+// noFrag(uri): the request target without its fragment ("we remove anchors"); afterQ(s): the text after the first '?'
+// of s, undecoded ("" when there is none).
+//@ define noFrag(uri string) string := ite(bytePos(uri, '#') >= 0, uri[0:bytePos(uri, '#')], uri)
+//@ define afterQ(s string) string := ite(bytePos(s, '?') >= 0, s[bytePos(s, '?')+1:len(s)], "")
+
+// the scalar variables written by ProcessURI exist and are nine different objects
+//@ define UriVarsOK(tx *Transaction) bool := tx.variables.requestMethod != nil && tx.variables.requestProtocol != nil && tx.variables.requestURIRaw != nil &&
+//@     tx.variables.requestLine != nil && tx.variables.urlencodedError != nil && tx.variables.requestURI != nil && tx.variables.requestBasename != nil &&
+//@     tx.variables.requestFilename != nil && tx.variables.queryString != nil
+//@ define UriVarsDistinct(tx *Transaction) bool :=
+//@     tx.variables.requestMethod != tx.variables.requestProtocol && tx.variables.requestMethod != tx.variables.requestURIRaw && tx.variables.requestMethod != tx.variables.requestLine &&
+//@     tx.variables.requestMethod != tx.variables.urlencodedError && tx.variables.requestMethod != tx.variables.requestURI && tx.variables.requestMethod != tx.variables.requestBasename &&
+//@     tx.variables.requestMethod != tx.variables.requestFilename && tx.variables.requestMethod != tx.variables.queryString &&
+//@     tx.variables.requestProtocol != tx.variables.requestURIRaw && tx.variables.requestProtocol != tx.variables.requestLine && tx.variables.requestProtocol != tx.variables.urlencodedError &&
+//@     tx.variables.requestProtocol != tx.variables.requestURI && tx.variables.requestProtocol != tx.variables.requestBasename && tx.variables.requestProtocol != tx.variables.requestFilename &&
+//@     tx.variables.requestProtocol != tx.variables.queryString &&
+//@     tx.variables.requestURIRaw != tx.variables.requestLine && tx.variables.requestURIRaw != tx.variables.urlencodedError && tx.variables.requestURIRaw != tx.variables.requestURI &&
+//@     tx.variables.requestURIRaw != tx.variables.requestBasename && tx.variables.requestURIRaw != tx.variables.requestFilename && tx.variables.requestURIRaw != tx.variables.queryString &&
+//@     tx.variables.requestLine != tx.variables.urlencodedError && tx.variables.requestLine != tx.variables.requestURI && tx.variables.requestLine != tx.variables.requestBasename &&
+//@     tx.variables.requestLine != tx.variables.requestFilename && tx.variables.requestLine != tx.variables.queryString &&
+//@     tx.variables.urlencodedError != tx.variables.requestURI && tx.variables.urlencodedError != tx.variables.requestBasename && tx.variables.urlencodedError != tx.variables.requestFilename &&
+//@     tx.variables.urlencodedError != tx.variables.queryString &&
+//@     tx.variables.requestURI != tx.variables.requestBasename && tx.variables.requestURI != tx.variables.requestFilename && tx.variables.requestURI != tx.variables.queryString &&
+//@     tx.variables.requestBasename != tx.variables.requestFilename && tx.variables.requestBasename != tx.variables.queryString &&
+//@     tx.variables.requestFilename != tx.variables.queryString
+
+// ProcessURI (C03): REQUEST_METHOD / REQUEST_PROTOCOL are the arguments, REQUEST_URI_RAW is the uri argument byte for
+// byte (fragment included); with u0 = the uri without its fragment: when u0 parses, QUERY_STRING is the text after the
+// first '?' of u0, undecoded, and exactly that text is handed -- once -- to ExtractGetArguments (`rawQueryOnce`; the
+// query is decoded there and nowhere else), after which every name of the query is a name of ARGS_GET or the
+// transaction says that input was lost (`argsVisible`); REQUEST_FILENAME is the path net/url decoded, REQUEST_URI the
+// text net/url re-assembles. When u0 does not parse the documented fallback is taken: REQUEST_URI and
+// REQUEST_FILENAME are u0 as it is, QUERY_STRING is empty, and URLENCODED_ERROR carries the (non-empty) parser message.
+// REQUEST_BASENAME is the part of REQUEST_FILENAME after its last '/' or '\'.
+//@ func (*Transaction).ProcessURI props C03,C20,C07
+//@   requires colsOK: tx.WAF != nil && !isnil(tx.debugLogger) && ArgColOK(tx.variables.argsGet)
+//@   requires vars: UriVarsOK(tx) && UriVarsDistinct(tx)
+//@   ensures method: tx.variables.requestMethod.data == method
+//@   ensures protocol: tx.variables.requestProtocol.data == httpVersion
+//@   ensures uriRaw: tx.variables.requestURIRaw.data == uri
+//@   ensures queryString: urlParses(noFrag(uri)) ==> tx.variables.queryString.data == afterQ(noFrag(uri))
+//@   ensures filename: urlParses(noFrag(uri)) ==> tx.variables.requestFilename.data == urlPath(noFrag(uri))
+//@   ensures requestURI: urlParses(noFrag(uri)) ==> tx.variables.requestURI.data == urlNormal(noFrag(uri))
+//@   ensures notFlaggedWhenParsed: urlParses(noFrag(uri)) ==> tx.variables.urlencodedError.data == old(tx.variables.urlencodedError.data)
+//@   at call "tx.ExtractGetArguments(" requires rawQueryOnce: urlParses(noFrag(uri)) && arg(1) == afterQ(noFrag(old(uri)))
+//@   at call "tx.variables.requestURI.Set(parsedURL" requires argsVisible: reqFlagged(tx) || (forall q string :: pqLen(afterQ(noFrag(old(uri))), '&', true, q) > 0 ==>
+//@       has(tx.variables.argsGet.Map.data, normKey(tx.variables.argsGet.Map, q)))
+//@   ensures fallbackURI: !urlParses(noFrag(uri)) ==> tx.variables.requestURI.data == noFrag(uri) && tx.variables.requestFilename.data == noFrag(uri) &&
+//@       tx.variables.queryString.data == ""
+//@   ensures fallbackFlagged: !urlParses(noFrag(uri)) ==> tx.variables.urlencodedError.data != ""
+// C03 "an error variable ... says so", with the notion of flagged used by the other request-data units (an error
+// variable holds "1"): GENUINE FAILURE, URLENCODED_ERROR receives the parser's message text and the arguments of
+// the unparsable URI are not extracted (see report)
+//@   ensures unparsedNeverSilent: !urlParses(noFrag(uri)) ==> reqFlagged(tx) || (forall q string :: pqLen(afterQ(noFrag(uri)), '&', true, q) > 0 ==>
+//@       has(tx.variables.argsGet.Map.data, normKey(tx.variables.argsGet.Map, q)))
+//@   ensures fallbackArgsUntouched: !urlParses(noFrag(uri)) ==> (forall k string :: has(tx.variables.argsGet.Map.data, k) == old(has(tx.variables.argsGet.Map.data, k)))
+//@   ensures basenameAfterSlash: lastSlash(tx.variables.requestFilename.data) >= 0 && len(tx.variables.requestFilename.data) > lastSlash(tx.variables.requestFilename.data) + 1 ==>
+//@       tx.variables.requestBasename.data == tx.variables.requestFilename.data[lastSlash(tx.variables.requestFilename.data)+1:len(tx.variables.requestFilename.data)]
+// a path that ends in a slash has an empty file-name part (GENUINE FAILURE: the code stores the whole path, see report)
+//@   ensures basenameTrailingSlash: lastSlash(tx.variables.requestFilename.data) >= 0 && len(tx.variables.requestFilename.data) == lastSlash(tx.variables.requestFilename.data) + 1 ==>
+//@       tx.variables.requestBasename.data == ""
+//@   ensures basenameNoSlash: lastSlash(tx.variables.requestFilename.data) == -1 ==> tx.variables.requestBasename.data == tx.variables.requestFilename.data
+
+// ---------------------------------------------------------------- ProcessConnection, SetServerName (C03)
+//@ func (*Transaction).ProcessConnection props C03,C07
+//@   requires vars: tx.variables.remoteAddr != nil && tx.variables.remotePort != nil && tx.variables.serverAddr != nil && tx.variables.serverPort != nil
+//@   requires distinct: tx.variables.remoteAddr != tx.variables.remotePort && tx.variables.remoteAddr != tx.variables.serverAddr && tx.variables.remoteAddr != tx.variables.serverPort &&
+//@       tx.variables.remotePort != tx.variables.serverAddr && tx.variables.remotePort != tx.variables.serverPort && tx.variables.serverAddr != tx.variables.serverPort
+//@   modifies tx.variables.remoteAddr.data, tx.variables.remotePort.data, tx.variables.serverAddr.data, tx.variables.serverPort.data
+//@   ensures remoteAddr: tx.variables.remoteAddr.data == client
+//@   ensures remotePort: tx.variables.remotePort.data == itoa(cPort)
+//@   ensures serverAddr: tx.variables.serverAddr.data == server
+//@   ensures serverPort: tx.variables.serverPort.data == itoa(sPort)
+
+//@ func (*Transaction).SetServerName props C03,C07
+//@   requires vars: tx.variables.serverName != nil && !isnil(tx.debugLogger)
+//@   modifies tx.variables.serverName.data
+//@   ensures serverName: tx.variables.serverName.data == serverName
+
+// ---------------------------------------------------------------- response headers / arguments (C03)
+// AddResponseHeader mirrors AddRequestHeader: an empty name is ignored; otherwise RESPONSE_HEADERS gains exactly one
+// entry under the case-folded name, carrying the original name and the byte-exact value, and no other name changes;
+// a content-type header sets RESPONSE_CONTENT_TYPE to the media type (the value up to its first ';'), any other header
+// leaves it alone.
+//@ func (*Transaction).AddResponseHeader props C03,C04,C07
+//@   requires vars: ArgColOK(tx.variables.responseHeaders) && tx.variables.responseContentType != nil
+//@   modifies mapof(tx.variables.responseHeaders.Map.data), collections.keyValue.key, collections.keyValue.value, tx.variables.responseContentType.data
+//@   ensures emptyName: key == "" ==> (forall k string :: has(tx.variables.responseHeaders.Map.data, k) == old(has(tx.variables.responseHeaders.Map.data, k)) &&
+//@       tx.variables.responseHeaders.Map.data[k] == old(tx.variables.responseHeaders.Map.data[k])) &&
+//@       tx.variables.responseContentType.data == old(tx.variables.responseContentType.data)
+//@   ensures headerAdded: key != "" ==> pairAdded(tx.variables.responseHeaders, key, value) && othersKept(tx.variables.responseHeaders, key)
+//@   ensures headerEntry: key != "" ==> pairIsLast(tx.variables.responseHeaders, key, value)
+//@   ensures ctypeWhole: key != "" && lower(key) == "content-type" && bytePos(value, ';') == -1 ==> tx.variables.responseContentType.data == value
+//@   ensures ctypeCut: key != "" && lower(key) == "content-type" && bytePos(value, ';') >= 0 ==> tx.variables.responseContentType.data == value[0:bytePos(value, ';')]
+//@   ensures ctypeOther: key == "" || lower(key) != "content-type" ==> tx.variables.responseContentType.data == old(tx.variables.responseContentType.data)
+
+// AddResponseArgument: below the argument limit the pair is appended to RESPONSE_ARGS under its normalised name and
+// no other name is touched.
+//@ func (*Transaction).AddResponseArgument props C03,C07
+//@   requires vars: tx.WAF != nil && !isnil(tx.debugLogger) && tx.variables.responseArgs != nil && tx.variables.responseArgs.data != nil
+//@   modifies mapof(tx.variables.responseArgs.data), collections.keyValue.key, collections.keyValue.value
+// UNPROVED: ensures belowLimit: old(len(tx.variables.responseArgs.data)) < tx.WAF.ArgumentLimit ==> <the pair is appended, as in addedOrUnchanged>
+//   (engine/contract gap: (*collections.Map).Len has no contract, so the outcome of the limit test is unknown on the skip path; the
+//    clause discharges on the append path. A one-line contract `ensures result == len(c.data)` in internal/collections would close it.)
+// either the pair is appended under its normalised name (original name, byte-exact value, last of its name) or nothing changes
+//@   ensures addedOrUnchanged: (forall k string :: has(tx.variables.responseArgs.data, k) == old(has(tx.variables.responseArgs.data, k)) &&
+//@       tx.variables.responseArgs.data[k] == old(tx.variables.responseArgs.data[k])) || (has(tx.variables.responseArgs.data, normKey(tx.variables.responseArgs, key)) &&
+//@       len(tx.variables.responseArgs.data[normKey(tx.variables.responseArgs, key)]) ==
+//@           ite(old(has(tx.variables.responseArgs.data, normKey(tx.variables.responseArgs, key))), old(len(tx.variables.responseArgs.data[normKey(tx.variables.responseArgs, key)])), 0) + 1 &&
+//@       tx.variables.responseArgs.data[normKey(tx.variables.responseArgs, key)][len(tx.variables.responseArgs.data[normKey(tx.variables.responseArgs, key)]) - 1].key == key &&
+//@       tx.variables.responseArgs.data[normKey(tx.variables.responseArgs, key)][len(tx.variables.responseArgs.data[normKey(tx.variables.responseArgs, key)]) - 1].value == value)
+//@   ensures others: forall k string :: k != normKey(tx.variables.responseArgs, key) ==>
+//@       has(tx.variables.responseArgs.data, k) == old(has(tx.variables.responseArgs.data, k)) && tx.variables.responseArgs.data[k] == old(tx.variables.responseArgs.data[k])
+
+// ---------------------------------------------------------------- body accessibility (C03, C20)
+//@ func (*Transaction).IsRequestBodyAccessible props C03,C20,C07
+//@   modifies nothing
+//@   ensures access: result == tx.RequestBodyAccess
+//@ func (*Transaction).IsResponseBodyAccessible props C03,C20,C07
+//@   modifies nothing
+//@   ensures access: result == tx.ResponseBodyAccess
+// the response body is processable when forced by ctl:forceResponseBodyVariable, otherwise exactly when
+// RESPONSE_CONTENT_TYPE is one of the configured SecResponseBodyMimeType values
+//@ func (*Transaction).IsResponseBodyProcessable props C03,C20,C07
+//@   modifies nothing
+//@   ensures forced: tx.ForceResponseBodyVariable ==> result
+//@   ensures byMime: !tx.ForceResponseBodyVariable ==> (result <==> (exists k int :: 0 <= k && k < len(tx.WAF.ResponseBodyMimeTypes) &&
+//@       tx.WAF.ResponseBodyMimeTypes[k] == tx.variables.responseContentType.data))
+
+// ---------------------------------------------------------------- body-processor dispatch and its error path (C03, C20)
+// the four error variables of the request (response) body parser exist and are different objects (true of every
+// transaction: NewTransactionVariables allocates each of them; used as a hypothesis, not as a precondition, so that
+// the callers of ProcessRequestBody / ProcessResponseBody get no new obligation)
+//@ define ReqErrVarsOK(tx *Transaction) bool := tx.variables.reqbodyError != nil && tx.variables.reqbodyErrorMsg != nil && tx.variables.reqbodyProcessorError != nil &&
+//@     tx.variables.reqbodyProcessorErrorMsg != nil && tx.variables.reqbodyProcessor != nil &&
+//@     tx.variables.reqbodyError != tx.variables.reqbodyErrorMsg && tx.variables.reqbodyError != tx.variables.reqbodyProcessorError && tx.variables.reqbodyError != tx.variables.reqbodyProcessorErrorMsg &&
+//@     tx.variables.reqbodyProcessorError != tx.variables.reqbodyErrorMsg && tx.variables.reqbodyProcessorError != tx.variables.reqbodyProcessorErrorMsg &&
+//@     tx.variables.reqbodyErrorMsg != tx.variables.reqbodyProcessorErrorMsg
+//@ define ResErrVarsOK(tx *Transaction) bool := tx.variables.resBodyError != nil && tx.variables.resBodyErrorMsg != nil && tx.variables.resBodyProcessorError != nil &&
+//@     tx.variables.resBodyProcessorErrorMsg != nil && tx.variables.resBodyProcessor != nil &&
+//@     tx.variables.resBodyError != tx.variables.resBodyErrorMsg && tx.variables.resBodyError != tx.variables.resBodyProcessorError && tx.variables.resBodyError != tx.variables.resBodyProcessorErrorMsg &&
+//@     tx.variables.resBodyProcessorError != tx.variables.resBodyErrorMsg && tx.variables.resBodyProcessorError != tx.variables.resBodyProcessorErrorMsg &&
+//@     tx.variables.resBodyErrorMsg != tx.variables.resBodyProcessorErrorMsg
+
+// generateRequestBodyError: REQBODY_ERROR = "1", REQBODY_PROCESSOR_ERROR = "1", REQBODY_PROCESSOR_ERROR_MSG = the
+// error's message (REQBODY_ERROR_MSG is "<processor>: <message>", built by fmt.Sprintf: not described).
+//@ func (*Transaction).generateRequestBodyError props C20,C03,C07
+//@   modifies tx.variables.reqbodyError.data, tx.variables.reqbodyErrorMsg.data, tx.variables.reqbodyProcessorError.data, tx.variables.reqbodyProcessorErrorMsg.data
+//@   ensures flagged: ReqErrVarsOK(tx) ==> tx.variables.reqbodyError.data == "1" && tx.variables.reqbodyProcessorError.data == "1"
+//@   ensures message: ReqErrVarsOK(tx) && !isnil(err) ==> tx.variables.reqbodyProcessorErrorMsg.data == errMsg(err)
+//@ func (*Transaction).generateResponseBodyError props C20,C03,C07
+//@   modifies tx.variables.resBodyError.data, tx.variables.resBodyErrorMsg.data, tx.variables.resBodyProcessorError.data, tx.variables.resBodyProcessorErrorMsg.data
+//@   ensures flagged: ResErrVarsOK(tx) ==> tx.variables.resBodyError.data == "1" && tx.variables.resBodyProcessorError.data == "1"
+//@   ensures message: ResErrVarsOK(tx) && !isnil(err) ==> tx.variables.resBodyProcessorErrorMsg.data == errMsg(err)
+
+// ProcessRequestBody, body-processor part (the phase state machine is in zz_contracts_verif.go):
+//  - the processor looked up is the one REQBODY_PROCESSOR names at that moment, lower-cased (`chosenByVariable`; the
+//    variable is set from the content type by AddRequestHeader or by ctl:requestBodyProcessor), and with
+//    ctl:forceRequestBodyVariable an empty REQBODY_PROCESSOR becomes URLENCODED first (`forcedDefault`);
+//  - the processor is given a reader positioned at the start of exactly the buffered request body (`readerOverBuffer`),
+//    after exactly one successful lookup and not more than once (`lookedUp`);
+//  - C20, "never as a body silently treated as inspected": whenever the phase-2 rules are evaluated, a failed lookup
+//    (`unknownProcessorFlagged`) or a failed processor (`processorErrorFlagged`) has set REQBODY_ERROR and
+//    REQBODY_PROCESSOR_ERROR to "1", and an accessible, non-empty body with a named processor was either processed
+//    without error or is flagged (`inspectedOrFlagged`);
+//  - on every path that starts in the right state the phase-2 rules are evaluated exactly once, error or not
+//    (`evaluatedOnce`).
+//@ func (*Transaction).ProcessRequestBody extend props C03,C20,C07
+//@   at call "bodyprocessors.GetBodyProcessor(" requires chosenByVariable: arg(0) == lower(tx.variables.reqbodyProcessor.data) && arg(0) != ""
+//@   at call "bodyprocessors.GetBodyProcessor(" requires forcedDefault: tx.ForceRequestBodyVariable && old(tx.variables.reqbodyProcessor.data) == "" ==> tx.variables.reqbodyProcessor.data == "URLENCODED"
+//@   at call "bodyprocessor.ProcessRequest(" requires readerOverBuffer: typeof(arg(0)) == tag("*bodyBufferReader") &&
+//@       payload(arg(0), "*bodyBufferReader").br == tx.requestBodyBuffer && payload(arg(0), "*bodyBufferReader").pos == 0
+//@   at call "bodyprocessor.ProcessRequest(" requires lookedUp: bpLookups == old(bpLookups) + 1 && isnil(lastLookupErr) && bpReqCalls == old(bpReqCalls)
+//@   at call "tx.WAF.Rules.Eval(types.PhaseRequestBody, tx)" requires unknownProcessorFlagged: ReqErrVarsOK(tx) && bpLookups > old(bpLookups) && !isnil(lastLookupErr) ==>
+//@       tx.variables.reqbodyError.data == "1" && tx.variables.reqbodyProcessorError.data == "1"
+//@   at call "tx.WAF.Rules.Eval(types.PhaseRequestBody, tx)" requires processorErrorFlagged: ReqErrVarsOK(tx) && bpReqCalls > old(bpReqCalls) && !isnil(lastBpReqErr) ==>
+//@       tx.variables.reqbodyError.data == "1" && tx.variables.reqbodyProcessorError.data == "1" && tx.variables.reqbodyProcessorErrorMsg.data == errMsg(lastBpReqErr)
+//@   at call "tx.WAF.Rules.Eval(types.PhaseRequestBody, tx)" requires inspectedOrFlagged: ReqErrVarsOK(tx) && tx.RequestBodyAccess && tx.requestBodyBuffer.length != 0 &&
+//@       lower(tx.variables.reqbodyProcessor.data) != "" ==> (bpReqCalls == old(bpReqCalls) + 1 && isnil(lastBpReqErr)) || tx.variables.reqbodyError.data == "1"
+//@   ensures evaluatedOnce: old(tx.RuleEngine) != types.RuleEngineOff && old(tx.interruption) == nil && old(tx.lastPhase) == 1 && isnil(result1) ==>
+//@       get(tx.evalCount, 2) == get(old(tx.evalCount), 2) + 1
+
+// ProcessResponseBody, body-processor part: the processor looked up is the one RESBODY_PROCESSOR names; it is given a
+// reader positioned at the start of exactly the buffered response body; an unknown processor is flagged
+// (RESBODY_ERROR = RESBODY_PROCESSOR_ERROR = "1") AND returned as an error, a failing processor is flagged, in both
+// cases before the phase-4 rules run, and they run exactly once.
+//@ func (*Transaction).ProcessResponseBody extend props C03,C20,C07
+//@   at call "bodyprocessors.GetBodyProcessor(" requires chosenByVariable: arg(0) == tx.variables.resBodyProcessor.data && arg(0) != ""
+//@   at call "b.ProcessResponse(" requires readerOverBuffer: typeof(arg(0)) == tag("*bodyBufferReader") &&
+//@       payload(arg(0), "*bodyBufferReader").br == tx.responseBodyBuffer && payload(arg(0), "*bodyBufferReader").pos == 0
+//@   at call "b.ProcessResponse(" requires lookedUp: bpLookups == old(bpLookups) + 1 && isnil(lastLookupErr) && bpResCalls == old(bpResCalls)
+//@   at call "tx.WAF.Rules.Eval(types.PhaseResponseBody, tx)" requires unknownProcessorFlagged: ResErrVarsOK(tx) && bpLookups > old(bpLookups) && !isnil(lastLookupErr) ==>
+//@       tx.variables.resBodyError.data == "1" && tx.variables.resBodyProcessorError.data == "1"
+//@   at call "tx.WAF.Rules.Eval(types.PhaseResponseBody, tx)" requires processorErrorFlagged: ResErrVarsOK(tx) && bpResCalls > old(bpResCalls) && !isnil(lastBpResErr) ==>
+//@       tx.variables.resBodyError.data == "1" && tx.variables.resBodyProcessorError.data == "1" && tx.variables.resBodyProcessorErrorMsg.data == errMsg(lastBpResErr)
+//@   ensures unknownProcessorReturned: bpLookups > old(bpLookups) && !isnil(lastLookupErr) ==> !isnil(result1)
+//@   ensures evaluatedOnce: old(tx.RuleEngine) != types.RuleEngineOff && old(tx.interruption) == nil && old(tx.lastPhase) == 3 &&
+//@       (isnil(result1) || (bpLookups > old(bpLookups) && !isnil(lastLookupErr))) ==> get(tx.evalCount, 4) == get(old(tx.evalCount), 4) + 1
